@@ -3,6 +3,7 @@ package props
 import (
 	"encoding/json"
 	"fmt"
+	"math"
 	"strings"
 	"time"
 
@@ -28,7 +29,7 @@ func (c18) ID() string { return "C18" }
 func (c18) Meta(tier string) engine.Meta {
 	return engine.Meta{
 		Level: "model_checking",
-		Rule: "all ordered pairs of values of one type, for 23 types: numbers {0,-0,±1,1+2e-9,0.1,2^53,2^53+2,±2^63,±(2^63+2048),2^63-1024,1e300,1e301,-1e300}, strings needing escapes, booleans, instants (incl. the same instant in another zone and with sub-second parts), lists of <= 2 numbers, lists of objects, string- and number-keyed maps built in every insertion order, 3-field objects in all 6 field orders, nested objects, optionals; each pair as raw values and (where Go data can express it) as converted host data; plus programs in which one value is reached through two paths ([xs, xs], {a: xs, b: xs}, …) against the equal value built from separate copies; every pair under map-iteration seeds 1..8 (all orders the runtime can produce for <= 8 entries). Oracle (premise: numeric parts identical or further apart than the tolerance, guaranteed by the value sets): x == y (language operator on singleton lists), equal String(), equal Key() / isset / get on a map keyed by x, and union / intersect / diff element identity must all coincide with the reference's structural equality; reflexive on independently built copies, symmetric; String() identical for every seed. non-trivial = every pair",
+		Rule: "all ordered pairs of values of one type, for 23 types: numbers {0,-0,±1,1+2e-9,0.1,2^53,2^53+2,±2^63,±(2^63+2048),2^63-1024,1e300,1e301,-1e300, and the adjacent doubles above 1e21, 2^70 and 1e100}, strings needing escapes, booleans, instants (incl. the same instant in another zone and with sub-second parts), lists of <= 2 numbers, lists of objects, string- and number-keyed maps built in every insertion order, 3-field objects in all 6 field orders, nested objects, optionals; each pair as raw values, (where Go data can express it) as converted host data, and (where the language has a literal) as LITERALS of one program on two back ends; plus programs in which one value is reached through two paths ([xs, xs], {a: xs, b: xs}, …) against the equal value built from separate copies; every pair under map-iteration seeds 1..8 (all orders the runtime can produce for <= 8 entries). Oracle (premise: numeric parts identical or further apart than the tolerance, guaranteed by the value sets): x == y (language operator on singleton lists), equal String(), equal Key() / isset / get on a map keyed by x, and union / intersect / diff element identity must all coincide with the reference's structural equality; reflexive on independently built copies, symmetric; String() identical for every seed. non-trivial = every pair",
 		Bound: "values of depth <= 2; containers of width <= 2 (objects 3); 8 seeds",
 		Assumptions: []string{"probe programs are compiled once per element type on the default back end and invoked per pair"},
 	}
@@ -38,6 +39,8 @@ func c18Values() map[string][]*ref.V {
 	N := gen.Num
 	ns := []float64{0, -0.0 * 1, 1, 1 + 2e-9, 0.1, gen.Pow53, gen.Pow53 + 2, gen.Pow63, gen.Pow63 + 2048, 1e300, 1e301, -1e300, -gen.Pow63, -gen.Pow63 - 2048, -1, gen.Pow63 - 1024}
 	ns[1] = negZero()
+	// adjacent doubles far above 2^63 (they differ in the 17th significant digit only)
+	ns = append(ns, 1e21, math.Nextafter(1e21, math.Inf(1)), math.Ldexp(1, 70), math.Nextafter(math.Ldexp(1, 70), math.Inf(1)), 1e100, math.Nextafter(1e100, math.Inf(1)))
 	out := map[string][]*ref.V{}
 	out["num"] = nums(ns...)
 	out["str"] = strs("", "a", `a"b`, `a\b`, "\n", "é", "a b", "A")
@@ -72,11 +75,12 @@ func c18Values() map[string][]*ref.V {
 		ref.MapV(gen.Str, N, ref.StrV("A"), ref.NumV(1), ref.StrV("a"), ref.NumV(2)), ref.MapV(gen.Str, N, ref.StrV("a"), ref.NumV(1), ref.StrV("A"), ref.NumV(2), ref.StrV("B"), ref.NumV(3), ref.StrV("b"), ref.NumV(4)))
 	out["map[str,num]"] = msn
 	var mns []*ref.V
-	keys := []float64{1, 1 + 2e-9, 0.5, gen.Pow63, gen.Pow63 + 2048, 1e300, 1e301, -gen.Pow63, -1}
+	keys := []float64{1, 1 + 2e-9, 0.5, gen.Pow63, gen.Pow63 + 2048, 1e300, 1e301, -gen.Pow63, -1, 0, negZero(), math.Ldexp(1, 70), math.Nextafter(math.Ldexp(1, 70), math.Inf(1))}
 	for _, k := range keys {
 		mns = append(mns, ref.MapV(N, gen.Str, ref.NumV(k), ref.StrV("x")))
 	}
-	mns = append(mns, ref.MapV(N, gen.Str, ref.NumV(1), ref.StrV("x"), ref.NumV(0.5), ref.StrV("y")), ref.MapV(N, gen.Str, ref.NumV(0.5), ref.StrV("y"), ref.NumV(1), ref.StrV("x")),
+	mns = append(mns, ref.MapV(N, gen.Str, ref.NumV(math.Ldexp(1, 70)), ref.StrV("x"), ref.NumV(math.Nextafter(math.Ldexp(1, 70), math.Inf(1))), ref.StrV("y")),
+		ref.MapV(N, gen.Str, ref.NumV(1), ref.StrV("x"), ref.NumV(0.5), ref.StrV("y")), ref.MapV(N, gen.Str, ref.NumV(0.5), ref.StrV("y"), ref.NumV(1), ref.StrV("x")),
 		ref.MapV(N, gen.Str, ref.NumV(1e300), ref.StrV("x"), ref.NumV(1e301), ref.StrV("y")), ref.MapV(N, gen.Str, ref.NumV(gen.Pow63), ref.StrV("x"), ref.NumV(gen.Pow63+2048), ref.StrV("y")))
 	out["map[num,str]"] = mns
 	// 3-field objects in all field orders
@@ -180,12 +184,15 @@ func (c18) Generate(tier string, yield func(*engine.Case) bool) {
 	vals := c18Values()
 	for _, tn := range c18TypeOrder {
 		vs := vals[tn]
-		for _, rep := range []string{"raw", "host"} {
+		for _, rep := range []string{"raw", "host", "lit"} {
 			if rep == "host" && !real.HostRepresentable(vs[0].T, true, "map") {
 				continue
 			}
 			for i, x := range vs {
 				for j, y := range vs {
+					if rep == "lit" && (litTerm(x) == nil || litTerm(y) == nil) {
+						continue
+					}
 					b, err := json.Marshal(c18Data{x, y, rep})
 					if err != nil {
 						panic(err)
@@ -311,6 +318,9 @@ func (c18) Run(c *engine.Case) *engine.Result {
 		}
 	}
 	same := ref.LangEqual(d.X, d.Y)
+	if d.Rep == "lit" {
+		return c18Literals(res, d, same, bad)
+	}
 	probes, err := c18Compile(d.X.T)
 	if err != nil {
 		bad("probe-compile-failed", "%v", err)
@@ -320,6 +330,7 @@ func (c18) Run(c *engine.Case) *engine.Result {
 	var renders, renders2 []string
 	var out []string
 	for seed := 1; seed <= 8; seed++ {
+		engine.Heartbeat()
 		seams.SetMapSeed(seed)
 		x, err1 := toRealVal(d.X, d.Rep)
 		y, err2 := toRealVal(d.Y, d.Rep)
@@ -447,5 +458,81 @@ func (c18) Run(c *engine.Case) *engine.Result {
 		}
 	}
 	res.Outcome = strings.Join(out, ";")
+	return res
+}
+
+// c18Literals: the same agreement for values written as LITERALS of one program, on two back ends.
+func c18Literals(res *engine.Result, d c18Data, same bool, bad func(string, string, ...interface{})) *engine.Result {
+	X, Y := litTerm(d.X).Render(), litTerm(d.Y).Render()
+	desc := fmt.Sprintf("literals %s vs %s", X, Y)
+	n := func(b bool, yes, no float64) *ref.V {
+		if b {
+			return ref.NumV(yes)
+		}
+		return ref.NumV(no)
+	}
+	progs := []struct {
+		src  string
+		want *ref.V
+		cls  string
+	}{
+		{fmt.Sprintf("[%s] == [%s]", X, Y), ref.BoolV(same), "equality-wrong"},
+		{fmt.Sprintf("[%s] == [%s]", Y, X), ref.BoolV(same), "equality-not-symmetric"},
+		{fmt.Sprintf("len(union([%s], [%s]))", X, Y), n(same, 1, 2), "set-membership-disagrees-with-equality"},
+		{fmt.Sprintf("len(intersect([%s], [%s]))", X, Y), n(same, 1, 0), "set-membership-disagrees-with-equality"},
+		{fmt.Sprintf("len(diff([%s], [%s]))", X, Y), n(same, 0, 1), "set-membership-disagrees-with-equality"},
+	}
+	if d.X.T.IsPrim() {
+		progs = append(progs, struct {
+			src  string
+			want *ref.V
+			cls  string
+		}{fmt.Sprintf("isset([%s: 7], %s)", X, Y), ref.BoolV(same), "map-entry-disagrees-with-equality"},
+			struct {
+				src  string
+				want *ref.V
+				cls  string
+			}{fmt.Sprintf("get([%s: 7], %s, 0)", X, Y), n(same, 7, 0), "map-entry-disagrees-with-equality"},
+			struct {
+				src  string
+				want *ref.V
+				cls  string
+			}{fmt.Sprintf("len([%s: 1, %s: 2])", X, Y), n(same, 1, 2), "key-disagrees-with-equality"})
+	}
+	if same && !hasObj(d.X.T) {
+		progs = append(progs, struct {
+			src  string
+			want *ref.V
+			cls  string
+		}{fmt.Sprintf("string([%s]) == string([%s])", X, Y), ref.BoolV(true), "render-disagrees-with-equality"})
+	}
+	var outs []string
+	for _, pg := range progs {
+		for _, b := range []real.Backend{real.VMSwitch, real.Closure} {
+			o := real.Run(b, nil, pg.src, real.EnvSpec{Rep: "raw"})
+			res.Execs++
+			if o.Val == nil {
+				bad("probe-failed", "%s: %s on %s: %s%s%s", desc, pg.src, b, o.CompileErr, stable(o.RunErr), stable(o.Panic))
+				continue
+			}
+			got, err := real.FromVal(o.Val)
+			if err != nil || !ref.Same(got, pg.want) {
+				bad(pg.cls, "%s: %s on %s gives %v, equal=%v demands %s", desc, pg.src, b, got, same, pg.want.Describe())
+			}
+			if b == real.VMSwitch {
+				outs = append(outs, fmt.Sprint(got))
+			}
+		}
+	}
+	// rendering of the two literals
+	for _, b := range []real.Backend{real.VMSwitch, real.Closure} {
+		ox := real.Run(b, nil, "["+X+"]", real.EnvSpec{Rep: "raw"})
+		oy := real.Run(b, nil, "["+Y+"]", real.EnvSpec{Rep: "raw"})
+		res.Execs += 2
+		if ox.Val != nil && oy.Val != nil && (ox.Val.String() == oy.Val.String()) != same {
+			bad("render-disagrees-with-equality", "%s on %s: renderings %q / %q, equal=%v", desc, b, ox.Val.String(), oy.Val.String(), same)
+		}
+	}
+	res.Outcome = fmt.Sprintf("lit same=%v %s", same, strings.Join(outs, ","))
 	return res
 }
